@@ -215,6 +215,10 @@ def run(prop, args):
                     gridsc.append((n, s_, d, [x << 40 for x in c8], "dp"))
                     gridsc.append((n, s_, d, list(c8), "dp/%d" % (8 << 40)))
     jobs += gridsc
+    # extreme ratios between the four costs (2**30): still exact in floating point
+    gridx = [(n, s_, d, c8, "dp") for n in (4, 9, 16, 30, 48) for s_ in (1, 2, 3) for d in (0, 1, 2)
+             for c8 in ([1, 1 << 30, 16, 16], [1 << 30, 1, 16, 16], [8, 8, 1 << 30, 1], [8, 8, 1, 1 << 30], [1 << 20, 8, 1 << 24, 1 << 22])]
+    jobs += gridx
     LT = 100 if tier == "quick" else 260
     scan_c8 = SEARCH_C8 + [[8, 8, 32, 32], [8, 8, 64, 64], [12, 8, 188, 45], [4, 8, 64, 8], [8, 4, 8, 64], [16, 16, 16, 64]]
     scan = R.pmap(_table_scan, [(sr, 4, c8, LT) for sr in (1, 2, 3) for c8 in scan_c8], chunksize=1)
@@ -238,7 +242,8 @@ def run(prop, args):
                       {"box": "n in %d..%d, RAM units 1..3, DISK units 0..3, 6 cost vectors, compared with the DP" % (NS + 1, ND), "cases": len(grid), "exhaustive": True},
                       {"box": "expensive disk: n in 8..%d, RAM units 1..3, 5 cost vectors with (wd+rd)/uf in 12.5..64" % NE, "cases": len(grid2), "exhaustive": True},
                       {"box": "one-decimal (non-dyadic) cost vectors: n in 2..%d, RAM 1..3, DISK 0..2, 5 vectors, exact comparison in tenths" % ND10, "cases": len(grid10), "exhaustive": True},
-                      {"box": "cost units rescaled by 2**40 and 2**-40: 6 n x 2 RAM x 2 DISK x 3 vectors", "cases": len(gridsc), "exhaustive": True}]
+                      {"box": "cost units rescaled by 2**40 and 2**-40: 6 n x 2 RAM x 2 DISK x 3 vectors", "cases": len(gridsc), "exhaustive": True},
+                      {"box": "extreme cost ratios (2**30 between two of the four costs): 5 n x 3 RAM x 3 DISK x 5 vectors", "cases": len(gridx), "exhaustive": True}]
     rep.extra["oracle_selfcheck"] = {"search_vs_dp_groups": nsearch}
     for out in res:
         n, s, d, c8, mode = out["job"]
